@@ -45,12 +45,19 @@ TREES = {
         "index.md": page("Root", "<div align=\"center\"><img src=\"|media|/logo.png\" width=\"200\"></div>\n\ninline <a href=\"|page|/deep/index.html\">deep</a> and <img src='|media|/logo.png' height=\"10\"> here\n"),
         "deep/index.md": page("Deep", "<div align=\"center\"><img src=\"|media|/logo.png\" width=\"200\"></div>\n\n<p>back <a href=\"|page|/index.html\">root</a>, <a href=\"|url|/index.html\">home</a></p>\n"),
         "deep/er/index.md": page("Deeper", "<table><tr><td><img src=\"|media|/logo.png\"></td><td><a href=\"|page|/deep/index.html\">up</a></td></tr></table>\n\ntext <img src=\"|media|/logo.png\" width=\"5\"> end\n")}, ""),
+    "latin-1 pages": ({
+        "index.md": page("Root", "caf\u00e9 root\n").encode("latin-1"), "umlaut.md": page("Umlaut", "gr\u00fc\u00dfe [root](index.html)\n").encode("latin-1"),
+        "sub/index.md": page("Sub", "na\u00efve\n").encode("latin-1"), "sub/deep.md": page("Deep", "\u00e5ngstr\u00f6m\n").encode("latin-1")}, "encoding: latin-1\n"),
+    "copy_subdir list with entries that are missing for some pages": ({
+        "index.md": page("Root", copy=("drafts", "figs")), "figs/f.png": "f", "guide/index.md": page("Guide"), "guide/data/d.bin": "d"}, "copy_subdir: images\n             data\n"),
     "sub-directory whose index has no title": ({
         "index.md": page("Root"), "good.md": page("Good"), "broken/index.md": "no metadata here\n", "broken/inner.md": page("Inner"), "z.md": page("Z")}, ""),
 }
 
 
 def meta_of(text):
+    if isinstance(text, bytes):
+        text = text.decode("latin-1")
     m = re.match(r"---\n(.*?)---\n", text, re.S)
     d = {"title": None, "ordered_subpage": [], "copy_subdir": []}
     if m:
@@ -117,7 +124,15 @@ NAV = re.compile(r'<a class="nav-link[^"]*" href="([^"]*)">(.*?)</a>', re.S)
 
 
 def check_tree(name, tree, proj_meta):
-    proj_copy = [l.split(":", 1)[1].strip() for l in proj_meta.splitlines() if l.startswith("copy_subdir:")]
+    proj_copy, on = [], False
+    for l in proj_meta.splitlines():
+        if l.startswith("copy_subdir:"):
+            proj_copy.append(l.split(":", 1)[1].strip())
+            on = True
+        elif on and l.startswith("    "):
+            proj_copy.append(l.strip())         # continuation line of the list
+        else:
+            on = False
     files = dict(SRC)
     files.update({"pages/" + k: v for k, v in tree.items()})
     files["media/logo.png"] = "logo"
